@@ -92,6 +92,22 @@ def run(ck, facts, tier, only=None):
             res = ev.apply_fn(fn, [a, vars_req], 0)
             S = a.fields["vars"]
             Tm = vars_req                      # the manifold iterates the requested Vec itself
+            if isinstance(res, cel.Coll) and cel.vkey(res.seq.src) == cel.vkey(Tm):
+                # one entry pushed per requested name (`grad.push(match idx { Some(..) => .., None => zero })`, then from_vec): the same array as the
+                # pre-sized one written at the enumerate index
+                el_ = res.seq.fn(Poly.atom("i0"))
+                if isinstance(el_, cel.Alt):
+                    arr_ = Arr([Poly.atom(("len", cel.vkey(Tm), None))], Poly.const(0))
+                    for gs_, x_ in cel.flat_alts(el_):
+                        pos_ = tuple(g_ for g_ in gs_ if not (isinstance(g_, tuple) and g_[0] == "not"))
+                        if isinstance(x_, Rec):
+                            for fv_ in x_.fields.values():
+                                if isinstance(fv_, Arr):          # an array built inside this alternative is built under the alternative's condition
+                                    for w_ in fv_.writes:
+                                        w_["guards"] = pos_ + tuple(g_ for g_ in w_["guards"] if g_ not in pos_)
+                        arr_.writes.append({"idx": [Poly.atom("i0")], "guards": tuple(g_ for g_ in gs_ if not (isinstance(g_, tuple) and g_[0] == "not")),
+                                            "loops": (("i0", cel.vkey(Tm)),), "val": x_, "seq": len(arr_.writes) + 1})
+                    res = arr_
             ok = isinstance(res, Arr) and len(res.writes) == 2
             why = "result is not an array with one entry per requested name (present / absent cases): %s" % cel.vfmt(res)[:400]
             if ok:
